@@ -448,6 +448,12 @@ def rule_P3(ctx, prefix, prog, site, allow_globals=()):
         fns = [f for f in prog.reachable([w]) if f.module.relpath.startswith("amr_kitchen/")]
         for f in fns:
             bad = []
+            for d in f.node.decorator_list:
+                dn = norm(d.func) if isinstance(d, ast.Call) else norm(d)
+                if dn.split(".")[-1] in ("lru_cache", "cache", "cached", "memoize", "memoise"):
+                    bad.append(f"`@{dn}` keeps results across tasks in the worker process (and in every process "
+                               f"forked from it): a caller that changes a returned object in place changes what "
+                               f"later tasks get, depending on which process ran which task")
             for n in walk_no_nested(f.node):
                 if isinstance(n, ast.Global):
                     bad.append(f"`global {', '.join(n.names)}`")
